@@ -49,6 +49,13 @@ def run(chk, repo):
     offsets(chk, repo, d)
     append_only(chk, repo)
     operand_widths(chk, repo)
+    # the operands a comparison is given: a byte-swapped signed value has
+    # to be sign-extended to the width the comparison asks for (shared with
+    # C01)
+    from .c01 import r5_endian
+    chk.doc("R01.5", "byte-swapped loads are sign-extended again (shared "
+                     "with C01)")
+    r5_endian(chk, repo, d)
 
 
 # statements that remove or insert instructions, allowed per function (read
